@@ -140,8 +140,13 @@ HasValue(pr, i) == pr.f[i].pres /\ (Fields[i].name \in {"TextureEntry", "NameVal
 Fill(i, n) == [j \in 1..n |-> ((13 * i + 5 * j) % 100) + 1]      \* bytes 1..100: finite floats, no NUL
 \* filler of the plain fixed-width fields per payload variant: low bytes, high bytes (sign bits set), mixed.
 \* Never 00, and never 7F/FF so that no float in a filled field is NaN or infinite.
+FloatFields == {"Scale", "Position", "Rotation", "AngularVelocity", "SoundGain", "SoundRadius"}
+Rep(b, n) == [j \in 1..n |-> b]
+\* variant 5: all-zero blocks; variant 6: all-FF blocks (float fields keep a finite filler: FF FF FF FF is a NaN)
 FillV(i, n, w) == CASE w = 1 -> Fill(i, n)
                     [] w = 2 -> [j \in 1..n |-> Fill(i, n)[j] + 128]
+                    [] w = 5 -> Rep(0, n)
+                    [] w = 6 -> (IF Fields[i].name \in FloatFields THEN Fill(i, n) ELSE Rep(255, n))
                     [] OTHER -> [j \in 1..n |-> LET x == ((37 * i + 11 * j) % 251) + 1 IN IF x = 127 THEN 126 ELSE x]
 PSys68 == Fill(50, 68)
 PData18 == <<3, 0, 0, 0>> \o Fill(51, 14)                         \* particle data flags without glow/blend
@@ -158,6 +163,9 @@ F13x14x20x21 == <<129, 193, 192, 0>>  \* faces 13, 14, 20, 21: 4 bytes, last gro
 \* texture entry with exceptions on high faces in three of its fields (textures, colour, glow)
 TEHi == SubSeq(TE46, 1, 16) \o F2x45 \o Fill(64, 16) \o SubSeq(TE46, 17, 21) \o F45 \o Fill(66, 4)
         \o SubSeq(TE46, 22, 26) \o F13x14x20x21 \o Fill(67, 4) \o SubSeq(TE46, 27, 46) \o F0x63 \o <<12>>
+\* every value FF (floats finite), separators intact
+TEFF == Rep(255, 16) \o <<0>> \o Rep(255, 4) \o <<0>> \o Fill(62, 4) \o <<0>> \o Fill(63, 4) \o <<0, 255, 255>>
+        \o <<0, 255, 255>> \o <<0, 255, 255>> \o <<0, 255>> \o <<0, 255>> \o <<0, 255>>
 NV1 == <<97, 32, 83, 84, 82, 73, 78, 71, 32, 82, 87, 32, 83, 86, 32, 98>>                  \* "a STRING RW SV b"
 NV2 == <<110, 32, 83, 51, 50, 32, 82, 32, 83, 32, 53, 10>> \o <<109, 32, 85, 51, 50, 32, 82, 87, 32, 68, 83, 32, 54>>  \* "n S32 R S 5\nm U32 RW DS 6"
 \* variant 4: terminated strings at / beyond a 256-byte block boundary (printable ASCII, no NUL, no newline)
@@ -165,17 +173,23 @@ Long(n) == [j \in 1..n |-> 97 + (j % 26)]
 Variant(nm, i, v, w) ==
   CASE nm = "State" -> (CASE v = 1 -> <<18>> [] v = 2 -> <<0>> [] OTHER -> <<244>>)
     [] nm = "Material" -> (CASE v = 1 -> <<3>> [] v = 2 -> <<2>> [] OTHER -> <<255>>)
-    [] nm = "ScratchPad" -> (CASE v = 1 -> <<7>> [] v = 2 -> <<>> [] OTHER -> <<0, 255, 0>>)
+    [] nm = "ScratchPad" -> (CASE v = 1 -> <<7>> [] v = 2 -> <<>> [] v = 5 -> Rep(0, 4) [] v = 6 -> Rep(255, 4) [] OTHER -> <<0, 255, 0>>)
     [] nm = "Text" -> (CASE v = 1 -> <<72, 105>> [] v = 2 -> <<>> [] v = 3 -> <<195, 169>> [] OTHER -> Long(256))
     [] nm = "MediaURL" -> (CASE v = 1 -> <<104>> [] v = 2 -> <<>> [] v = 3 -> <<97, 47, 98>> [] OTHER -> Long(257))
-    [] nm = "PSBlock" -> PSys68 \o PData18
+    \* all-zero legacy block (particle CRC 0); all-FF block except the glow/blend bits, which the 86-byte layout has no room for
+    [] nm = "PSBlock" -> (CASE w = 5 -> Rep(0, 86) [] w = 6 -> Rep(255, 68) \o <<255, 255, 252, 255>> \o Rep(255, 14)
+                            [] OTHER -> PSys68 \o PData18)
     [] nm = "ExtraParams" -> (CASE v = 1 -> <<0>>
+                                [] v = 5 -> <<2, 32, 0, 16, 0, 0, 0>> \o Rep(0, 16) \o <<48, 0, 17, 0, 0, 0>> \o Rep(0, 17)
+                                [] v = 6 -> <<2, 32, 0, 16, 0, 0, 0>> \o Rep(255, 4) \o Fill(52, 12) \o <<112, 0, 4, 0, 0, 0>> \o Rep(255, 4)
                                 [] v = 2 -> <<1, 32, 0, 16, 0, 0, 0>> \o Fill(52, 16)
                                 [] OTHER -> <<2, 112, 0, 4, 0, 0, 0, 1, 0, 0, 0, 48, 0, 17, 0, 0, 0>> \o Fill(53, 16) \o <<5>>)
     [] nm = "NameValue" -> (CASE v = 1 -> NV1 [] v = 2 -> NV2 [] v = 4 -> NV1 \o Long(300) [] OTHER -> <<>>)
-    [] nm = "TextureEntry" -> (CASE v = 1 -> TE46 [] v = 2 -> <<>> [] v = 3 -> TE80 [] OTHER -> TEHi)
-    [] nm = "TextureAnim" -> <<3, 255, 1, 1>> \o Fill(54, 12)
+    [] nm = "TextureEntry" -> (CASE v = 1 -> TE46 [] v = 2 -> <<>> [] v = 3 -> TE80 [] v = 5 -> Rep(0, 46) [] v = 6 -> TEFF [] OTHER -> TEHi)
+    [] nm = "TextureAnim" -> (CASE w = 5 -> Rep(0, 16) [] w = 6 -> Rep(255, 4) \o Fill(54, 12) [] OTHER -> <<3, 255, 1, 1>> \o Fill(54, 12))
     [] nm = "PSBlockNew" -> (CASE v = 1 -> LE32(68) \o PSys68 \o LE32(18) \o PData18
+                               [] v = 5 -> LE32(68) \o Rep(0, 68) \o LE32(18) \o Rep(0, 18)
+                               [] v = 6 -> LE32(68) \o Rep(255, 68) \o LE32(22) \o Rep(255, 22)   \* glow and blend present
                                [] v = 2 -> <<>>
                                [] OTHER -> PSys68 \o PData18)
     [] OTHER -> FillV(i, Fields[i].n, w)
@@ -185,7 +199,7 @@ Varied == {"State", "Material", "ScratchPad", "Text", "MediaURL", "ExtraParams",
 CONSTANTS FlagWords,   \* set of low-11-bit flag words to enumerate
           HighBits,    \* set of values (multiples of 2048, < 65536) OR-ed into the flag word: must not matter
           PCodes,      \* set of object kinds (PCode bytes)
-          Variants,    \* set of content variants (subset of 1..4)
+          Variants,    \* set of content variants (subset of 1..6)
           Product      \* TRUE: every varied field picks its variant independently; FALSE: one variant per payload
 VARIABLES flags, hi, pcode, v0, idx, buf, emitted
 vars == <<flags, hi, pcode, v0, idx, buf, emitted>>
